@@ -41,6 +41,8 @@ PRIMS = {
     "geometric_reinforce": ("geom", "geometric_reinforce"),
     "normal_reparam": ("normal", "normal_reparam"),
     "normal_reinforce": ("normal", "normal_reinforce"),
+    "normal_reparam_vec": ("normal_vec", "normal_reparam"),
+    "normal_reinforce_vec": ("normal_vec", "normal_reinforce"),
     "uniform_reparam": ("uniform", "uniform_reparam"),
     "uniform_reinforce": ("uniform", "uniform_reinforce"),
     "mvn_reparam": ("mvn", "multivariate_normal_reparam"),
@@ -48,7 +50,7 @@ PRIMS = {
     "mvn_reinforce": ("mvn", "multivariate_normal_reinforce"),
 }
 ENUM = {"flip_enum", "flip_enum_parallel", "categorical_enum_parallel"}
-REPARAM = {"normal_reparam", "uniform_reparam", "mvn_reparam", "mvn_diag_reparam"}
+REPARAM = {"normal_reparam", "normal_reparam_vec", "uniform_reparam", "mvn_reparam", "mvn_diag_reparam"}
 
 
 def _specs():
@@ -74,6 +76,11 @@ def _specs():
     S["mvn_reparam"] = ([("mvn_reparam", lambda t, v: (jnp.stack([t, 0.0 * t]), cov))], lambda t, v: v[0][0] * v[0][1] + v[0][0] ** 2, (0.3,))
     S["mvn_diag_reparam"] = ([("mvn_diag_reparam", lambda t, v: (jnp.stack([t, 1.0 + 0.0 * t]), jnp.stack([1.0 + 0.0 * t, t])))], lambda t, v: v[0][0] * v[0][1] + v[0][1] ** 2, (0.6,))
     S["mvn_reinforce"] = ([("mvn_reinforce", lambda t, v: (jnp.stack([t, 0.0 * t]), cov))], lambda t, v: v[0][0] ** 2 + v[0][1] * t, (0.3,))
+    # array-valued sites whose parameters broadcast (scalar loc, vector scale and vice versa): the
+    # coordinates must be independent draws -- the tail couples them multiplicatively
+    S["normal_reparam_vec_scale"] = ([("normal_reparam_vec", lambda t, v: (t, jnp.asarray([0.5, 1.5])))], lambda t, v: v[0][0] * v[0][1] + v[0][0], (0.7,))
+    S["normal_reparam_vec_loc"] = ([("normal_reparam_vec", lambda t, v: (t * jnp.asarray([1.0, -2.0]), 0.8))], lambda t, v: v[0][0] * v[0][1] + v[0][1] ** 2, (0.7,))
+    S["normal_reinforce_vec"] = ([("normal_reinforce_vec", lambda t, v: (t * jnp.asarray([1.0, -2.0]), jnp.asarray([0.5, 1.5])))], lambda t, v: v[0][0] * v[0][1] + v[0][0], (0.7,))
     # ---- compositions (cross terms)
     S["reinforce_then_mvd"] = (
         [("normal_reinforce", lambda t, v: (t, 1.0)), ("flip_mvd", lambda t, v: (0.5 + 0.1 * v[0],))],
@@ -164,6 +171,14 @@ def _exact(spec):
         if fam == "normal":
             mu, s = ps
             return sum(float(wi) * rec(theta, i + 1, vals + (mu + s * np.sqrt(2.0) * float(ti),)) for ti, wi in zip(gh_t, gh_w))
+        if fam == "normal_vec":
+            mu, sd = jnp.broadcast_arrays(jnp.asarray(ps[0]), jnp.asarray(ps[1]))
+            tot = 0.0
+            for combo in itertools.product(zip(gh4_t, gh4_w), repeat=int(mu.shape[0])):
+                z = jnp.asarray([c[0] for c in combo], jnp.float32)
+                wgt = float(np.prod([c[1] for c in combo]))
+                tot = tot + wgt * rec(theta, i + 1, vals + (mu + sd * np.sqrt(2.0) * z,))
+            return tot
         if fam == "uniform":
             lo, hi = ps
             return sum(float(wi) * rec(theta, i + 1, vals + (lo + (hi - lo) * float(ti),)) for ti, wi in zip(gl_t, gl_w))
@@ -386,7 +401,7 @@ def _pathwise(spec, eps):
         fam = PRIMS[prim][0]
         ps = pf(theta, list(vals))
         if prim in REPARAM:
-            if fam == "normal":
+            if fam in ("normal", "normal_vec"):
                 x = ps[0] + ps[1] * eps
             elif fam == "uniform":
                 x = ps[0] + (ps[1] - ps[0]) * eps
